@@ -243,8 +243,12 @@ class Grower:
                 w = self.const([o, rng.choice([1, 2]), rng.choice([1, 2]), c], share=share)
                 oshape = self.iconst([n, h, w_, o], base="oshape")
                 ins = [oshape, w, x]
-                if rng.random() < 0.5:
+                rb = rng.random()
+                if rb < 0.4:
                     ins.append(self.const([o], base="b"))
+                elif rb < 0.7:
+                    ins.append(-1)   # absent optional bias written as -1 (what the MLIR converter emits)
+                    self.tags.add("absent_optional_operand")
                 y = self.new_act([n, h, w_, o])
                 opts = s.TransposeConvOptionsT()
                 opts.padding, opts.strideH, opts.strideW = s.Padding.SAME, 1, 1
@@ -640,12 +644,12 @@ def random_inputs(model_bytes, rng, sg_info=None, n=1, scale=None, spread=False)
     return out
 
 
-def gen_tied(rng, shared_bias=0.0):
+def gen_tied(rng, shared_bias=0.0, nsg=None):
     """models with tied constants: one buffer referenced by several tensors (within / across subgraphs)
     and one constant tensor feeding 2..3 operators. With probability `shared_bias` the FULLY_CONNECTED ops of a subgraph
     also share ONE bias tensor while reading inputs of different ranges (the bias scale input_scale*weight_scale then differs
     per consumer: the quantizer must refuse or get both right)."""
-    nsg = rng.choice([1, 1, 2])
+    nsg = nsg or rng.choice([1, 1, 2])
     g = G()
     info = {"tags": {"tied"}, "subgraphs": []}
     f, o = rng.choice([2, 3, 4]), rng.choice([2, 3])
@@ -657,6 +661,15 @@ def gen_tied(rng, shared_bias=0.0):
         gr = Grower(g, rng, prefix)
         x = gr.add_input([rng.randint(1, 2), f])
         kinds = []
+        if si > 0 and rng.random() < 0.6:
+            # the readers of the tied weight sit at other operator positions than in the first subgraph
+            for _ in range(rng.randint(1, 2)):
+                x2 = gr.new_act(list(g.sg.tensors[x].shape))
+                g.op(rng.choice([BO.TANH, BO.ABS, BO.LOGISTIC]), [x], [x2])
+                gr.out(x2, list(g.sg.tensors[x].shape))
+                x = x2
+                kinds.append("UNARY")
+            info["tags"].add("tied_readers_at_different_positions")
         mode = rng.choice(["same_tensor", "same_buffer", "mixed"]) if si == 0 else "same_buffer"
         if shared_buf is None:
             w0 = g.tensor(gr.name("w"), [o, f], data=wdata)
